@@ -20,9 +20,29 @@ Local Open Scope Z_scope.
 Theorem C29_at_most_once : forall cfg peers h acc t0,
   f_signing cfg = true -> ordered t0 h -> hist_ok cfg h ->
   run cfg peers [] h = (acc, false) ->
-  NoDup (map (fun p => cmd_id (snd p)) acc).
+  fresh_acc [] acc.
 Proof. exact at_most_once. Qed.
 Print Assumptions C29_at_most_once.
+
+(** [fresh_acc]: every accepted delivery is of a command the agent has not
+    acted on before - neither accepted from a peer nor ISSUED BY ITSELF
+    (histories contain [OIssue] steps: Flooder.FloodSleepCommand /
+    FloodWakeCommand as called by TriggerSleep / TriggerWake).  In particular
+    the accepted deliveries are pairwise different signed contents: *)
+Theorem C29_accepted_once : forall cfg peers h acc t0,
+  f_signing cfg = true -> ordered t0 h -> hist_ok cfg h ->
+  run cfg peers [] h = (acc, false) ->
+  NoDup (map (fun p => cmd_id (snd p)) (accepted acc)).
+Proof. exact accepted_once. Qed.
+Print Assumptions C29_accepted_once.
+
+(** a command the agent issued itself and is sent back with the unsigned
+    SeenBy list emptied or rewritten is not accepted *)
+Theorem C29_issued_command_not_accepted_back :
+  ordered T0 hist_issue /\ hist_ok (default_cfg true) hist_issue /\
+  run (default_cfg true) model_peers [] hist_issue = ([(T0, own_cmd, true)], false).
+Proof. exact issued_command_not_accepted_back. Qed.
+Print Assumptions C29_issued_command_not_accepted_back.
 
 (** Forged or unsigned commands never enter the cache, so they cannot be used
     to overflow it. *)
@@ -41,13 +61,13 @@ Print Assumptions C29_expiry_covers_validity.
 Theorem C29_refuted_ttl_lt_validity_pre_fix :
   ordered T0 hist_ttl /\ hist_ok (default_cfg true) hist_ttl /\
   run_pre_fix (default_cfg true) model_peers [] hist_ttl
-  = ([(T0, ahead_cmd); (T0 + 451 * second, ahead_cmd)], false).
+  = ([(T0, ahead_cmd, false); (T0 + 451 * second, ahead_cmd, false)], false).
 Proof. exact refuted_ttl_lt_validity_pre_fix. Qed.
 Print Assumptions C29_refuted_ttl_lt_validity_pre_fix.
 
 Theorem C29_refuted_flood_evict_pre_fix :
   ordered T0 hist_flood /\
-  fst (run_pre_fix small_cfg model_peers [] hist_flood) = [(T0, now_cmd); (T0 + 151 * second, now_cmd)].
+  fst (run_pre_fix small_cfg model_peers [] hist_flood) = [(T0, now_cmd, false); (T0 + 151 * second, now_cmd, false)].
 Proof. exact refuted_flood_evict_pre_fix. Qed.
 Print Assumptions C29_refuted_flood_evict_pre_fix.
 
@@ -56,21 +76,21 @@ Print Assumptions C29_refuted_flood_evict_pre_fix.
     expiry, accepted twice with an expiry of exactly twice the window. *)
 Theorem C29_race_with_cleanup :
   ordered T0 hist_race /\ hist_ok (default_cfg true) hist_race /\
-  run (default_cfg true) model_peers [] hist_race = ([(T0, ahead_cmd)], false) /\
+  run (default_cfg true) model_peers [] hist_race = ([(T0, ahead_cmd, false)], false) /\
   run_with handle_split (fun cfg => Z.max (f_ttl cfg) (2 * f_window cfg)) (default_cfg true) model_peers [] hist_race
-  = ([(T0, ahead_cmd); (T0 + 600 * second + 2000000, ahead_cmd)], false).
+  = ([(T0, ahead_cmd, false); (T0 + 600 * second + 2000000, ahead_cmd, false)], false).
 Proof. exact race_history_repaired. Qed.
 Print Assumptions C29_race_with_cleanup.
 
 (** The same histories on the repaired code, and non-vacuity of the theorem. *)
 Theorem C29_nonvacuous :
   ordered T0 hist_ttl /\ hist_ok (default_cfg true) hist_ttl /\ f_signing (default_cfg true) = true /\
-  run (default_cfg true) model_peers [] hist_ttl = ([(T0, ahead_cmd)], false).
+  run (default_cfg true) model_peers [] hist_ttl = ([(T0, ahead_cmd, false)], false).
 Proof. exact at_most_once_nonvacuous. Qed.
 Print Assumptions C29_nonvacuous.
 
 Theorem C29_flood_history_repaired :
-  run small_cfg model_peers [] hist_flood = ([(T0, now_cmd)], false).
+  run small_cfg model_peers [] hist_flood = ([(T0, now_cmd, false)], false).
 Proof. exact flood_history_repaired. Qed.
 Print Assumptions C29_flood_history_repaired.
 
@@ -80,7 +100,10 @@ Print Assumptions C29_flood_history_repaired.
     the loop, verify and only then mark, the expiry handed to the sleep command
     cache is max(SeenCacheTTL, 2 x timestampWindow) and is tested strictly, the
     size-based eviction exists (the model's overflow case), the cleanup loop
-    runs every SeenCacheTTL/2, and the default constants are the model's. *)
+    runs every SeenCacheTTL/2, both issuing functions (FloodSleepCommand,
+    FloodWakeCommand) mark the issuer's own command as seen from the local
+    identity before they send anything (the model's [OIssue]), and the default
+    constants are the model's. *)
 Theorem C29_source_facts :
   gen_c29_mark_is_one_critical_section = true /\
   gen_c29_mark_refreshes_seen_at_for_other_peer = true /\
@@ -90,6 +113,8 @@ Theorem C29_source_facts :
   gen_c29_expiry_test_strict = true /\
   gen_c29_size_eviction_when_over_max = true /\
   gen_c29_cleanup_every_half_ttl = true /\
+  gen_c29_flood_sleep_marks_own_command_before_sending = true /\
+  gen_c29_flood_wake_marks_own_command_before_sending = true /\
   gen_c29_default_ttl_ns = f_ttl (default_cfg true) /\
   gen_c29_default_window_ns = f_window (default_cfg true) /\
   gen_c29_default_max_cache = f_max (default_cfg true) /\
